@@ -22,7 +22,7 @@ ACCESS = ['IsRoot', 'Count', 'Back', 'Front']
 POINTER = ['IsRoot', 'Count', 'Back', 'Front', 'SplitFront', 'SplitAt', 'SplitBack', 'Parent', 'StripSuffix', 'StripPrefix',
            'EndsWith', 'StartsWith', 'Intersection']
 WALKS = ['ParseIndex', 'ResolveJson', 'ResolveMutJson', 'ResolveToml', 'ResolveMutToml']
-BUF = ['FromTokens', 'PushFront', 'PushBack', 'PopBack', 'Append', 'Clear']
+BUF = ['FromTokens', 'PushFront', 'PushBack', 'PopBack', 'Append', 'Clear', 'PopFront', 'Replace']
 def _u(*ls):
     out = []
     for l in ls:
@@ -32,7 +32,7 @@ def _u(*ls):
 # which regenerated functions each property rests on, and the transported theorem modules
 PROP_FUNCS = {
     'C01': _u(['ValidateBytes'], TOKEN, SLICE, POINTER, BUF),
-    'C11': _u(BUF, ['IsRoot']),
+    'C11': _u(BUF, ['IsRoot', 'Count']),
     'C02': ['ValidateBytes'], 'C14': ['ValidateBytes'],
     'C05': _u(WALKS, ['IndexFromStr', 'ForLen']), 'C09': _u(WALKS, ['IndexFromStr', 'ForLen']), 'C15': _u(WALKS, ['IndexFromStr', 'ForLen']),
     'C08': _u(WALKS, ['IndexFromStr', 'ForLen']), 'C10': _u(WALKS, ['IndexFromStr', 'ForLen']),
@@ -56,6 +56,7 @@ TIE_THEOREMS = {
     'Intersection': ['Jp.Tie.intersection_eq', 'Jp.Tie.intersection_loop_eq'],
     'FromTokens': ['Jp.Tie.from_tokens_eq'], 'PushFront': ['Jp.Tie.push_front_eq'], 'PushBack': ['Jp.Tie.push_back_eq'],
     'PopBack': ['Jp.Tie.pop_back_eq'], 'Append': ['Jp.Tie.append_eq'], 'Clear': ['Jp.Tie.clear_eq'],
+    'PopFront': ['Jp.Tie.pop_front_eq'], 'Replace': ['Jp.Tie.replace_eq'],
     'IndexFromStr': ['Jp.Tie.index_from_str_eq'],
     'ParseIndex': ['Jp.Tie.parse_index_eq'], 'ResolveJson': ['Jp.Tie.resolve_json_eq', 'Jp.Tie.resolve_json_loop'],
     'ResolveMutJson': ['Jp.Tie.resolve_mut_json_eq'], 'ResolveToml': ['Jp.Tie.resolve_toml_eq'], 'ResolveMutToml': ['Jp.Tie.resolve_mut_toml_eq'],
@@ -70,7 +71,8 @@ TRANSPORT_THEOREMS = {
                        'gen_from_str_ok_iff', 'gen_from_str_no_panic', 'gen_display_from_str'],
     'TransportPointer': ['gen_starts_with_iff', 'gen_strip_prefix_iff', 'gen_strip_suffix_iff', 'gen_ends_with_iff',
                          'gen_intersection_lcp', 'gen_intersection_comm', 'gen_split_at_iff', 'gen_split_at_concat'],
-    'TransportBuf': ['gen_buf_step_eq', 'gen_step_refines', 'gen_from_tokens_tokens', 'gen_append_tokens', 'gen_append_root'],
+    'TransportBuf': ['gen_buf_step_eq', 'gen_step_refines', 'gen_from_tokens_tokens', 'gen_append_tokens', 'gen_append_root',
+                     'run_gen_buf_eq', 'gen_history_refines'],
     'TransportResolve': ['gen_resolve_json', 'gen_resolve_mut_json', 'gen_resolve_toml', 'gen_resolve_mut_toml', 'gen_four_walks_agree',
                          'gen_resolve_eq_walk', 'gen_resolve_returns_node', 'gen_every_node_addressable', 'gen_resolve_no_panic'],
 }
